@@ -27,7 +27,7 @@ Produce {n} DIFFERENT changes to the project's non-test Go source (each one smal
  2. the property above is genuinely broken by the change;
  3. the breakage needs something specific to manifest — a particular unusual input (e.g. non-ASCII / non-BMP characters, CRLF, empty or boundary values), a multi-step sequence of operations, a second call after a first one, or two cooperating sites that each look fine alone — NOT something that ordinary use or a casual smoke test would expose at once;
  4. you provide a demonstration: a Go test file (in-package `_test.go`, or a small program) that FAILS with the change applied and PASSES on the unchanged tree. Verify both directions yourself (flip with `git diff > p.diff; git apply -R p.diff; ...; git apply p.diff` — never `git stash`: the stash is shared with sibling worktrees other people are using).
-Prefer changes in different functions/mechanisms from each other, and spread them over different clauses of the statement; at least one of them should sit away from the most obvious site named above — in a helper it depends on, in a caller that feeds it, or split over two sites that must cooperate. Earlier rounds of this exercise already covered the most obvious edits at the named sites (dropping a clamp, rune-vs-UTF-16 length swaps, moving a cache check, hoisting a loop-invariant call, case-insensitive comparisons): look for something subtler or somewhere else. Do not edit or delete existing tests. Do not add build tags. Do not touch files named zz_contracts_verif.go if any exist.
+Prefer changes in different functions/mechanisms from each other, and spread them over different clauses of the statement; at least one of them should sit away from the most obvious site named above — in a helper it depends on, in a caller that feeds it, or split over two sites that must cooperate. Earlier rounds of this exercise already covered the most obvious edits at the named sites (dropping a clamp, rune-vs-UTF-16 length swaps, moving a cache check, hoisting a loop-invariant call, case-insensitive comparisons): look for something subtler or somewhere else. Later rounds also used up: filtering or rewriting requests in the dispatcher (cmd/hledger-lsp), dropping the percent-decoding of URIs, skipping glob matches / cache-hit error wrapping in the include loader, moving characters around the commodity symbol in the formatter, rewriting small string helpers of the folding code, replacing sort.Strings by a comparator sort, turning a continue into a break in the tag scanner, and negating an int32 exponent. Do not edit or delete existing tests. Do not add build tags. Do not touch files named zz_contracts_verif.go if any exist.
 
 DELIVERABLE — for each change k = {first}..{last} create the directory {wt}/_seeded/{pid}-k/ containing:
   - patch.diff : `git diff` of the source change ONLY (no test files), applicable with `git apply` at the repository root of the unchanged tree;
